@@ -105,7 +105,7 @@ pub fn c14_page_remove_range_clear() {
 }
 
 #[cfg_attr(kani, kani::proof)]
-#[cfg_attr(kani, kani::unwind(10))]
+#[cfg_attr(kani, kani::unwind(66))]
 pub fn c14_page_set_algebra() {
     let a = any_page();
     let b = any_page();
@@ -120,13 +120,23 @@ pub fn c14_page_set_algebra() {
     assert!(s.contains(probe) == (ma && !mb));
     assert!(u.len() == popcount(&u.storage) && i.len() == popcount(&i.storage) && s.len() == popcount(&s.storage));
     // Eq / Hash inputs agree with set equality
-    let same = a.storage == b.storage;
-    assert!((a == b) == same);
+    let mut same = true;
+    let mut w = 0;
+    while w < 8 {
+        if a.storage[w] != b.storage[w] {
+            same = false;
+        }
+        w += 1;
+    }
+    let eq = a == b; // the crate's PartialEq compares the 64 storage bytes (memcmp: unwind >= 65)
+    assert!(eq == same);
     kani::cover!(ma && !mb, "probe in a only");
 }
 
 // @bound page with words 0, 1, 7 symbolic (others zero); first 3 items of iter(), last 2 of iter().rev(): ascending/descending, members only, no member skipped between consecutive items
-// @timeout 900
+// @tier thorough
+// @timeout 3000
+// @mem 24
 #[cfg_attr(kani, kani::proof)]
 #[cfg_attr(kani, kani::unwind(10))]
 pub fn c14_page_iter_order_and_membership() {
@@ -162,6 +172,34 @@ pub fn c14_page_iter_order_and_membership() {
         }
     }
     kani::cover!(n == 3, "three members");
+}
+
+// @bound page with words 0, 1, 7 symbolic: the first item of iter() is the smallest member, the first item of iter().rev() the largest
+#[cfg_attr(kani, kani::proof)]
+#[cfg_attr(kani, kani::unwind(10))]
+pub fn c14_page_iter_first_and_last() {
+    let p = sparse_page();
+    match p.iter().next() {
+        Some(x) => {
+            assert!(x < 512 && member(&p.storage, x));
+            let g: u32 = kani::any();
+            kani::assume(g < x);
+            assert!(!member(&p.storage, g));
+        }
+        None => {
+            let g: u32 = kani::any();
+            kani::assume(g < 512);
+            assert!(!member(&p.storage, g));
+        }
+    }
+    let last = p.iter().next_back();
+    if let Some(x) = last {
+        assert!(x < 512 && member(&p.storage, x));
+        let g: u32 = kani::any();
+        kani::assume(g > x && g < 512);
+        assert!(!member(&p.storage, g));
+        kani::cover!(x > 448, "largest member in the last word");
+    }
 }
 
 // @timeout 900
